@@ -10,11 +10,11 @@ Definition pcw (p : pc) : nat :=
   match p with
   | PIdle => 0 | PW0 _ _ => 7 | PW1 _ _ => 1 | PW2 _ _ => 6 | PW2wait _ _ => 5 | PW3 _ _ => 5
   | PW4 _ _ => 4 | PE0 _ _ => 3 | PC1 _ _ => 2 | PC2 _ _ => 1 | PC2wait _ _ => 0 | PO1 _ => 8
-  | PO0 => 9 | PPwait => 8
+  | PO0 => 10 | PO0b _ => 9 | PPwait => 8
   end.
 Definition callw (c : call) : nat :=
   match c with
-  | CWrite _ | CData _ => 8 | COpen => 10 | CClose => 3 | CPump => 9 | _ => 1
+  | CWrite _ | CData _ => 8 | COpen => 11 | CClose => 3 | CPump => 9 | _ => 1
   end.
 Fixpoint progw (p : list call) : nat := match p with [] => 0 | c :: r => callw c + progw r end.
 Definition mu (s : state) (t : tid) : nat := pcw (pcof s t) + progw (t_prog (tasks s t)).
@@ -83,7 +83,7 @@ Ltac progtac Hw :=
   cbn [tasks set_pump set_dq set_pump_done];
   repeat first [ rewrite prog_finish_w | rewrite prog_finish | rewrite prog_set_pc | rewrite prog_finish_close
                | rewrite prog_enter_close | rewrite prog_feed | rewrite prog_push | rewrite prog_wake ];
-  cbn [tasks set_task set_tasks set_table set_buffering set_failing set_flags set_queue set_lock set_wire set_shut set_closed set_pump set_dq set_pump_done];
+  cbn [tasks set_task set_tasks set_table set_rtable set_buffering set_failing set_flags set_queue set_lock set_wire set_shut set_closed set_pump set_dq set_pump_done];
   rewrite ?upd_other by exact Hw; try reflexivity.
 
 Theorem step_other_prog s t s' w :
@@ -106,9 +106,10 @@ Proof.
     + rewrite prog_set_pc. unfold release. rewrite prog_release_ws. reflexivity.
     + rewrite prog_finish_w. unfold release. rewrite prog_release_ws. reflexivity.
   - inversion H; subst; progtac Hw.
-  - cbv zeta in H. inversion H; subst. rewrite prog_set_pc. cbn [tasks set_table set_tasks]. rewrite prog_drain. apply prog_wake.
+  - cbv zeta in H. inversion H; subst. rewrite prog_set_pc. cbn [tasks set_table set_tasks set_rtable drain_state]. rewrite prog_drain. apply prog_wake.
   - destruct (wr s); inversion H; subst; progtac Hw.
   - discriminate.
+  - inversion H; subst; progtac Hw.
   - inversion H; subst; progtac Hw.
   - inversion H; subst; progtac Hw.
   - discriminate.
@@ -176,12 +177,13 @@ Proof.
   - inversion H; subst; unfold mu. rewrite prog_enter_close. unfold enter_close. destruct (closed s).
     + rewrite pcof_finish_close_same. cbn. lia.
     + rewrite (pcof_of_pcu _ _ _ _ (pcu_set_pc _ t _)). cbn. lia.
-  - cbv zeta in H. inversion H; subst; unfold mu. rewrite (pcof_of_pcu _ _ _ _ (pcu_set_pc _ t _)), prog_set_pc. cbn [tasks set_table set_tasks].
+  - cbv zeta in H. inversion H; subst; unfold mu. rewrite (pcof_of_pcu _ _ _ _ (pcu_set_pc _ t _)), prog_set_pc. cbn [tasks set_table set_tasks set_rtable drain_state].
     rewrite prog_drain, prog_wake. cbn. lia.
   - destruct (wr s); inversion H; subst; unfold mu.
     + rewrite (pcof_of_pcu _ _ _ _ (pcu_set_pc _ t _)), prog_set_pc. cbn. lia.
     + rewrite pcof_finish_close_same, prog_finish_close. cbn. lia.
   - discriminate.
+  - inversion H; subst; unfold mu. rewrite (pcof_of_pcu _ _ _ _ (pcu_set_task _ t _)). cbn. rewrite upd_same. cbn. lia.
   - inversion H; subst; unfold mu. rewrite (pcof_of_pcu _ _ _ _ (pcu_set_task _ t _)). cbn. rewrite upd_same. cbn. lia.
   - inversion H; subst; unfold mu. rewrite (pcof_of_pcu _ _ _ _ (pcu_set_task s t _)). cbn. rewrite upd_same. cbn. lia.
   - discriminate.
